@@ -2,7 +2,7 @@
     Model: Model/Options.v over the generated table/program (Gen/Gen_Options.v, regenerated from
     src/IO/ProgramOptions.cpp on every run).  Lemmas: Proofs/OptionsP.v, Proofs/OptionsThm.v. *)
 From Coq Require Import List String ZArith Bool.
-From Inovesa Require Import Model.OptionsTypes Model.Options Gen.Gen_Options Proofs.OptionsP Proofs.OptionsThm.
+From Inovesa Require Import Model.OptionsTypes Model.Options Gen.Gen_Options Proofs.OptionsP Proofs.OptionsThm Proofs.OptionsAlias.
 Import ListNotations.
 Local Open Scope string_scope.
 
@@ -113,7 +113,7 @@ Theorem unknown_or_malformed_fails :
         forall s, parse T wf P cli fs dflt <> Run s).
 Proof.
   intros T P CK wf cli fs dflt. repeat split.
-  - intros c t HI R. exact (unknown_cli_fails T wf P cli fs dflt c t HI R).
+  - intros c t HI R. exact (unknown_cli_fails T wf P cli fs dflt c t CK HI R).
   - intros items n toks o t RA HI Fo To Ht Hw. exact (malformed_cli_fails T wf P cli fs dflt items n toks o t CK RA HI Fo To Ht Hw).
   - intros i1 i2 i3 n t1 t2 o RA Fo Ty. exact (repeated_cli_fails T wf P cli fs dflt i1 i2 i3 n t1 t2 o CK RA Fo Ty).
   - intros items ci b RA SRC BAD. exact (bad_config_never_runs T wf P cli fs dflt items ci b CK RA SRC BAD).
@@ -142,3 +142,96 @@ Example missing_config_example :
   parse gen_table (fun _ _ => true) gen_prog [(Long "config", [9%Z])] (fun _ => FNoFile) FNoFile = Stop
   /\ (exists s, parse gen_table (fun _ _ => true) gen_prog [] (fun _ => FNoFile) FNoFile = Run s).
 Proof. split; [vm_compute; reflexivity | eexists; vm_compute; reflexivity]. Qed.
+
+(* ============================================================================================ *)
+(** * Second wave *)
+
+(** C20.2 legacy names, the designed two-parse form.  [rename_items al ci] is the file [ci] with every
+    legacy name replaced by its current name.  For every table/program accepted by the checker: if the
+    invocation with the original files ([fs], [dflt] = ./default.cfg) and the same command line with the
+    renamed files both run, every member bound to a current option holds the same tokens - provided the
+    loaded file does not give an option under both its legacy and its current name (the statement is
+    about a file that uses the legacy name instead of the current one: with both, the current name wins
+    in the original and the renamed file repeats a scalar, [alias_equivalence_both_names]).
+    Proved from the pointwise form ([precedence] on both sides). *)
+Theorem C20_alias_equivalence :
+  forall (T : list opt) (P : prog), checker T P = true ->
+  forall wf cli fs fs' dflt dflt' s s',
+  (forall t, fs' t = rename_fsent (prog_aliases P) (fs t)) -> dflt' = rename_fsent (prog_aliases P) dflt ->
+  parse T wf P cli fs dflt = Run s -> parse T wf P cli fs' dflt' = Run s' ->
+  (forall items a c, resolve_all T cli = Some items -> In (a, c) (prog_aliases P) ->
+     occurs a (loaded T P items fs dflt) = true -> occurs c (loaded T P items fs dflt) = false) ->
+  forall o, In o T -> is_canon o = true -> typed o = true ->
+    s_vars s' (o_var o) = s_vars s (o_var o).
+Proof.
+  intros T P CK wf cli fs fs' dflt dflt' s s' Hfs Hd H H' NB.
+  exact (alias_equiv_thm T wf P cli fs fs' dflt dflt' s s' CK Hfs Hd H H' NB).
+Qed.
+Print Assumptions C20_alias_equivalence.
+
+(** hypotheses satisfiable: `-N <t4> --config f`, f = { RFVoltage=<t7>; steps=<t8>; SyncFreq=<t9> } against the
+    renamed file: same members; the renamed file has the current names *)
+Example alias_equivalence_example :
+  let f := [("RFVoltage", [7%Z]); ("steps", [8%Z]); ("SyncFreq", [9%Z]); ("GridSize", [3%Z])] in
+  let cli := [(Short "N", [4%Z]); (Long "config", [5%Z])] in
+  rename_items (prog_aliases gen_prog) f
+  = [("AcceleratingVoltage", [7%Z]); ("StepsPerTs", [8%Z]); ("SynchrotronFrequency", [9%Z]); ("GridSize", [3%Z])]
+  /\ match parse gen_table (fun _ _ => true) gen_prog cli (fun _ => FFile f) FNoFile,
+           parse gen_table (fun _ _ => true) gen_prog cli (fun _ => FFile (rename_items (prog_aliases gen_prog) f)) FNoFile with
+     | Run s, Run s' => (s_vars s "V_RF", s_vars s "steps_per_Ts", s_vars s "f_s")
+                        = (Some [7%Z], Some [4%Z], Some [9%Z])
+                        /\ (s_vars s' "V_RF", s_vars s' "steps_per_Ts", s_vars s' "f_s") = (s_vars s "V_RF", s_vars s "steps_per_Ts", s_vars s "f_s")
+     | _, _ => False
+     end.
+Proof. vm_compute. repeat split; reflexivity. Qed.
+
+(** the side condition is needed: with both names in one file the original runs (current name wins) and
+    the renamed file is refused (scalar given twice) *)
+Example alias_equivalence_both_names :
+  let f := [("RFVoltage", [7%Z]); ("AcceleratingVoltage", [6%Z])] in
+  let cli := [(Long "config", [5%Z])] in
+  match parse gen_table (fun _ _ => true) gen_prog cli (fun _ => FFile f) FNoFile with
+  | Run s => s_vars s "V_RF" = Some [6%Z] | _ => False end
+  /\ parse gen_table (fun _ _ => true) gen_prog cli (fun _ => FFile (rename_items (prog_aliases gen_prog) f)) FNoFile = Fail.
+Proof. vm_compute. split; reflexivity. Qed.
+
+(** C20.2 a bare word on the command line (no positional options are declared) stops the program: for
+    every table/program accepted by the checker - which demands that the command line is parsed with an
+    (empty) positional description, [p_nopos] - an invocation that contains one fails. *)
+Theorem stray_positional_fails :
+  forall (T : list opt) (P : prog), checker T P = true ->
+  forall wf cli fs dflt t, In (Bare, t) cli -> parse T wf P cli fs dflt = Fail.
+Proof. intros T P CK wf cli fs dflt t HI. exact (unknown_cli_fails T wf P cli fs dflt Bare t CK HI eq_refl). Qed.
+Print Assumptions stray_positional_fails.
+
+Example stray_positional_example :
+  parse gen_table (fun _ _ => true) gen_prog [(Long "GridSize", [3%Z]); (Bare, [7%Z]); (Bare, [8%Z])] (fun _ => FNoFile) FNoFile = Fail.
+Proof. vm_compute. reflexivity. Qed.
+
+(** on the pinned tree (parse_command_line without a positional description) the bare words were dropped:
+    `inovesa --GridSize <t3> T 10` ran with the default number of rotations - fixed in the repo *)
+Theorem stray_positional_refuted :
+  exists cli t, In (Bare, t) cli /\
+    match parse gen_table (fun _ _ => true) pinned_prog cli (fun _ => FNoFile) FNoFile with
+    | Run s => s_vars s "meshsize" = Some [3%Z] /\ s_vars s "rotations" = Some [default_of gen_table "rotations"]
+    | _ => False
+    end.
+Proof.
+  exists [(Long "GridSize", [3%Z]); (Bare, [7%Z]); (Bare, [8%Z])], [7%Z]. split; [cbn; auto|].
+  vm_compute. split; reflexivity.
+Qed.
+Print Assumptions stray_positional_refuted.
+
+(** a negative token for an unsigned option: after the fix the implementation refuses it like any other
+    malformed value, so the token oracle of the harness says "not a value of the type" and
+    [unknown_or_malformed_fails] applies - on the command line, and in the file unless the command line
+    gives the option (a file entry that is overridden is not looked at; parse() mirrors that).  With an
+    oracle that refuses token 5 for uint32_t: *)
+Example negative_for_unsigned_example :
+  let wfu := fun ty t => negb (match ty with TU32 => Z.eqb t 5 | _ => false end) in
+  parse gen_table wfu gen_prog [(Short "s", [5%Z])] (fun _ => FNoFile) FNoFile = Fail
+  /\ parse gen_table wfu gen_prog [(Long "config", [9%Z])] (fun _ => FFile [("outstep", [5%Z])]) FNoFile = Fail
+  /\ parse gen_table wfu gen_prog [(Long "config", [9%Z])] (fun _ => FFile [("steps", [5%Z])]) FNoFile = Fail
+  /\ (exists s, parse gen_table wfu gen_prog [(Short "s", [3%Z]); (Long "config", [9%Z])] (fun _ => FFile [("GridSize", [5%Z])]) FNoFile = Run s)
+  /\ (exists s, parse gen_table wfu gen_prog [(Long "RenormalizeCharge", [5%Z])] (fun _ => FNoFile) FNoFile = Run s).
+Proof. vm_compute. repeat split; try reflexivity; eexists; reflexivity. Qed.
